@@ -12,6 +12,7 @@ Scopes
   structured   products of block-structure line fragments (markers x indents x continuation lines)
   docgen       tools/docgen.py documents (grammar-based and malformed) under random option sets
   lineends     CR / CRLF / NUL / BOM / front matter variants of generated documents
+  special      the caps (list depth 100, link label 1000 bytes), wide tables, long fences, tab stops at every column
 
 `tie_blocks(c, tier)` is for other checks; `./check BLOCKS_TIE quick` runs it alone together with the theorems
 of coq/Props/Blocks.v and writes evidence/BLOCKS_TIE.json.  Every disagreement is shrunk (tools/shrink.py)."""
@@ -81,6 +82,34 @@ def is_utf8(b):
         return True
     except UnicodeDecodeError:
         return False
+
+
+def special_docs():
+    """caps and deep structures that random generation does not reach: MAX_LIST_DEPTH (100), long link labels
+    (MAX_LINK_LABEL_LENGTH 1000), many table columns, deep quotes, long fences, tabs at every column"""
+    out = []
+    for n in (98, 99, 100, 101, 102, 120):
+        out.append(("- " * n + "a\n").encode())
+        out.append((">" * n + " a\n").encode())
+        out.append(("1. " * n + "a\n").encode())
+        out.append(("> - " * (n // 2) + "a\nb\n").encode())
+        out.append(("[^a]: " * n + "x\n").encode())
+        out.append("".join(" " * (2 * i) + "- a\n" for i in range(n)).encode())
+    for n in (998, 999, 1000, 1001, 1002):
+        out.append(("[" + "a" * n + "]: b\n").encode())
+        out.append(("[" + "\\]" * (n // 2) + "]: b\nc\n").encode())
+    for n in (1, 2, 50, 300):
+        out.append(("|" + "a|" * n + "\n|" + "-|" * n + "\n|" + "b|" * (n // 2 + 1) + "\n" + "|c" * (n + 3) + "\n").encode())
+        out.append(("`" * (n + 2) + " x\ny\n" + "`" * (n + 1) + "\n" + "`" * (n + 2) + "\nz\n").encode())
+        out.append(("#" * n + " a " + "#" * n + "\n").encode())
+        out.append(("a\n" * n + "===\n").encode())
+        out.append(("[a]: b\n" * n + "c\n---\n").encode())
+    for k in range(0, 9):
+        for t in ("\t", " \t", "  \t", "\t\t", "\t \t"):
+            out.append((" " * k + "-" + t + "a\n" + " " * k + t + "b\n").encode())
+            out.append((" " * (k % 4) + ">" + t + "a\n>" + t + t + "b\n").encode())
+            out.append((" " * (k % 4) + "1." + t + "a\n\n" + t + "b\n").encode())
+    return out
 
 
 def lineend_variants(rng, docs):
@@ -172,6 +201,9 @@ def tie_blocks(c, tier, builds_done=False, max_report=12):
     base = [d for _, d in dg[: (600 if q else 8000)]] + st[-(400 if q else 4000):]
     le = lineend_variants(rng, base)
     scopes.append(("lineends", [(rng.choice([{}, OPT_ALL, {"front_matter_delimiter": "---"}, dict(OPT_ALL, front_matter_delimiter="---")]), d) for d in le]))
+
+    sp = special_docs()
+    scopes.append(("special", [(o, d) for d in sp for o in ({}, OPT_ALL)]))
 
     all_ok = True
     counts = {}
